@@ -33,18 +33,18 @@ theorem logMultiply_comm (a b : Nat) : logMultiply a b = logMultiply b a := by
   rw [Nat.add_comm (logAt a)]
   simp only [Or.comm]
 
-theorem exp_mod (k : Nat) (hk : k < 510) : expAt k = expAt (k % 255) := by
+theorem exp_mod (k : Nat) (hk : k < 509) : expAt k = expAt (k % 255) := by
   by_cases h : k < 255
   · rw [Nat.mod_eq_of_lt h]
   · have h1 : k = (k - 255) + 255 := by omega
     have h2 : k % 255 = k - 255 := by omega
     rw [h2]; conv => lhs; rw [h1]
-    exact (exp_facts (k - 255) (by omega)).1
+    exact (exp_facts (k - 255) (by omega)).1 (by omega)
 
-theorem exp_pos (k : Nat) (hk : k < 510) : 1 ≤ expAt k := by
+theorem exp_pos (k : Nat) (hk : k < 509) : 1 ≤ expAt k := by
   rw [exp_mod k hk]; exact (exp_facts _ (Nat.mod_lt _ (by omega))).2.1
 
-theorem log_exp (k : Nat) (hk : k < 510) : logAt (expAt k) = k % 255 := by
+theorem log_exp (k : Nat) (hk : k < 509) : logAt (expAt k) = k % 255 := by
   rw [exp_mod k hk]; exact (exp_facts _ (Nat.mod_lt _ (by omega))).2.2
 
 /-- product of two non-zero octets, as an exponent -/
